@@ -283,12 +283,14 @@ def _edit_one(job):
                     cli_args(ops), sorted(got[1].splitlines()) if got[0] == "ok" else got, explab), ws_used))
             for s in hand["d"]:
                 for it in s["items"][:1]:
-                    q = "%s:%s" % (SECTION[s["s"]], key_text(s["s"], it["k"], 0))
-                    got = query_cli(base, cli_args(ops), d, ["--item-value", q])
-                    out["n"] += 1
-                    if got[0] != "ok" or got[1].strip() != resolved(val_text(s["s"], it["k"], it["v"])):
-                        out["bad"].append(("item-value", "cli", "--item-value %s with edits %s gives %r, expected %r" % (
-                            q, cli_args(ops), got[1][:80], resolved(val_text(s["s"], it["k"], it["v"]))), ws_used))
+                    # the item as the listing names it, and typed with blanks inside the key and after the section name (as the
+                    # edit options accept it, and as a header '[Pair ]' / a key 'A - B' may be written in the file)
+                    for q in ("%s:%s" % (SECTION[s["s"]], key_text(s["s"], it["k"], 0)), "%s :%s" % (SECTION[s["s"]], key_text(s["s"], it["k"], 1))):
+                        got = query_cli(base, cli_args(ops), d, ["--item-value", q])
+                        out["n"] += 1
+                        if got[0] != "ok" or got[1].strip() != resolved(val_text(s["s"], it["k"], it["v"])):
+                            out["bad"].append(("item-value", "cli", "--item-value '%s' with edits %s gives %r, expected %r" % (
+                                q, cli_args(ops), got[1][:80], resolved(val_text(s["s"], it["k"], it["v"]))), ws_used or " :" in q))
     except Exception:
         import traceback
         out["machinery"] = traceback.format_exc()[-1500:]
